@@ -115,7 +115,6 @@ func Load(o Options) (*Program, error) {
 	}
 	if !o.NoSSA {
 		prog, spkgs := ssautil.AllPackages(pkgs, ssa.InstantiateGenerics)
-		prog.Build()
 		p.SSA = prog
 		for i, sp := range spkgs {
 			if pkgs[i] == root {
@@ -125,6 +124,9 @@ func Load(o Options) (*Program, error) {
 		if p.SSAPkg == nil {
 			return nil, fmt.Errorf("load: no SSA package for root")
 		}
+		// only the root package's function bodies are needed: callees in other packages are
+		// handled through summaries
+		p.SSAPkg.Build()
 	}
 	return p, nil
 }
